@@ -65,7 +65,7 @@ theorem step_fastaMark (st : PState) : step st sFasta = .ok { st with fasta := t
 
 theorem seqChar_facts {c : Char} (h : seqChar c = true) : c ≠ '\n' ∧ c ≠ '>' ∧ c ≠ '#' := by
   simp only [seqChar, Bool.and_eq_true, bne_iff_ne, ne_eq] at h
-  exact ⟨h.1.1, h.1.2, h.2⟩
+  exact ⟨h.1.1.1, h.1.1.2, h.1.2⟩
 
 theorem step_seqline (st : PState) (hf : st.fasta = true) {line : Str} (h : ∀ c ∈ line, seqChar c = true) :
     step st line = .ok { st with buf := st.buf ++ line } := by
@@ -114,6 +114,31 @@ theorem loop_seqlines : ∀ (ls : List Str) (st : PState), st.fasta = true →
     have := loop_seqlines ls { st with buf := st.buf ++ l } hf (fun x hx => h x (by simp [hx]))
     rw [this]
     simp [List.append_assoc]
+
+/-- lines of the FASTA section that append `s` to the sequence and change nothing else -/
+def TailOk (ls : List Str) (s : Str) : Prop :=
+  ∀ st : PState, st.fasta = true → loop ls st = .ok { st with buf := st.buf ++ s }
+
+theorem TailOk.nil : TailOk [] [] := by
+  intro st _; simp [loop]
+
+theorem TailOk.append {a b : List Str} {s t : Str} (ha : TailOk a s) (hb : TailOk b t) : TailOk (a ++ b) (s ++ t) := by
+  intro st hf
+  rw [loop_append, ha st hf]
+  simp only [Outcome.bind_ok]
+  rw [hb { st with buf := st.buf ++ s } hf]
+  simp [List.append_assoc]
+
+theorem TailOk.seqlines (ls : List Str) (h : ∀ l ∈ ls, ∀ c ∈ l, seqChar c = true) : TailOk ls ls.flatten :=
+  fun st hf => loop_seqlines ls st hf h
+
+theorem TailOk.skip {line : Str} (hp : hasPrefix sHash1 line = true) (hn : line ≠ sFasta) : TailOk [line] [] := by
+  intro st _
+  simp [loop, step_skip st hp hn]
+
+theorem TailOk.blank : TailOk [[]] [] := by
+  intro st _
+  simp [loop, step_blank]
 
 /-- lines before `##FASTA` that leave everything but the feature list unchanged -/
 def MidOk (ls : List Str) (F : List Feature) : Prop :=
@@ -298,19 +323,18 @@ theorem parseLines_doc (vline rline x0 ver name rs re dl : Str) (mid tail : List
     (hr : split ' ' rline = [x0, name, rs, re])
     (hvp : hasPrefix sHash1 vline = true) (hvn : vline ≠ sFasta)
     (hrp : hasPrefix sHash1 rline = true) (hrn : rline ≠ sFasta)
-    (hmid : MidOk mid F)
-    (htail : ∀ l ∈ tail, ∀ c ∈ l, seqChar c = true) :
+    (seq : Str) (hmid : MidOk mid F) (htail : TailOk tail seq) :
     parseLines (vline :: rline :: (mid ++ sFasta :: ('>' :: dl) :: tail)) =
       .ok { name := name, gffVersion := ver, regionStart := atoi rs, regionEnd := atoi re,
-            size := atoi re - atoi rs, description := '>' :: dl, seq := tail.flatten, features := F } := by
+            size := atoi re - atoi rs, description := '>' :: dl, seq := seq, features := F } := by
   have hloop : loop (vline :: rline :: (mid ++ sFasta :: ('>' :: dl) :: tail)) {} =
-      .ok { fasta := true, buf := tail.flatten, desc := '>' :: dl, feats := F } := by
+      .ok { fasta := true, buf := seq, desc := '>' :: dl, feats := F } := by
     simp only [loop, step_skip _ hvp hvn, step_skip _ hrp hrn, Outcome.bind_ok]
     rw [loop_append, hmid _ rfl]
     simp only [Outcome.bind_ok, loop, step_fastaMark]
     rw [step_defline _ rfl]
     simp only [Outcome.bind_ok]
-    rw [loop_seqlines tail _ rfl htail]
+    rw [htail _ rfl]
     simp
   simp only [parseLines, hv, hr, Outcome.bind_ok]
   simp only [idx, List.getElem?_cons_zero, List.getElem?_cons_succ, Outcome.bind_ok, hloop]
